@@ -110,7 +110,7 @@ func encode(thread *starlark.Thread, b *starlark.Builtin, args starlark.Tuple, k
 		}
 	}
 
-	path := make([]unsafe.Pointer, 0, 8)
+	path := make([]pathElem, 0, 8)
 
 	var emit func(x starlark.Value) error
 	emit = func(x starlark.Value) error {
@@ -118,7 +118,7 @@ func encode(thread *starlark.Thread, b *starlark.Builtin, args starlark.Tuple, k
 		// It is only necessary to push/pop the item when it might contain
 		// itself (i.e. the last three switch cases), but omitting it in the other
 		// cases did not show significant improvement on the benchmarks.
-		if ptr := pointer(x); ptr != nil {
+		if ptr := pointer(x); ptr.ptr != nil {
 			if pathContains(path, ptr) {
 				return fmt.Errorf("cycle in JSON structure")
 			}
@@ -261,18 +261,32 @@ func encodeIndent(thread *starlark.Thread, b *starlark.Builtin, args starlark.Tu
 	return starlark.String(buf.String()), nil
 }
 
-func pointer(i any) unsafe.Pointer {
+// A pathElem identifies a value on the path from the root to the value
+// being emitted. A slice-typed value (e.g. a tuple) is identified by its
+// data pointer and its length: t and t[:1] share the pointer but are
+// different values, and an empty slice cannot contain anything.
+type pathElem struct {
+	ptr unsafe.Pointer
+	len int
+}
+
+func pointer(i any) pathElem {
 	v := reflect.ValueOf(i)
 	switch v.Kind() {
-	case reflect.Pointer, reflect.Chan, reflect.Map, reflect.UnsafePointer, reflect.Slice:
+	case reflect.Pointer, reflect.Chan, reflect.Map, reflect.UnsafePointer:
 		// TODO(adonovan): use v.Pointer() when we drop go1.17.
-		return unsafe.Pointer(v.Pointer())
+		return pathElem{ptr: unsafe.Pointer(v.Pointer())}
+	case reflect.Slice:
+		if v.Len() == 0 {
+			return pathElem{}
+		}
+		return pathElem{ptr: unsafe.Pointer(v.Pointer()), len: v.Len()}
 	default:
-		return nil
+		return pathElem{}
 	}
 }
 
-func pathContains(path []unsafe.Pointer, item unsafe.Pointer) bool {
+func pathContains(path []pathElem, item pathElem) bool {
 	return slices.Contains(path, item)
 }
 
